@@ -272,3 +272,55 @@ Definition sp_receive (key : Type) (can_open : key -> cert -> bool)
 (* the instance used by the correspondence: a key is named like its certificate *)
 Definition opens_named (k : string) (c : cert) : bool := cert_eqb c (Good k).
 Definition sp_named := sp_parse string opens_named.
+
+(* ------------------------------------------------------------------------------------------------ *)
+(* How the five boolean options reach Server._authn_response when the call enters through the public API.
+   Server.create_authn_response (server.py 776-871) has a default for every option in its SIGNATURE and hands all of
+   them on as keywords; Server.gather_authn_response_args (696-718) then takes, per option,
+       val_kw if val_kw is not None else val_config if val_config is not None else val_default
+   (val_config = IdP configuration, service/idp/<option>; "true"/"false" strings were turned into booleans when the
+   configuration was loaded).  An option the caller does not pass arrives as the signature default: None for
+   sign_response / sign_assertion / encrypt_assertion (the configuration is consulted), False for
+   encrypted_advice_attributes and True for encrypt_assertion_self_contained (the configuration is never consulted
+   for these two unless the caller passes None explicitly).
+   Server.create_authn_request_response (883-918) forwards sign_response / sign_assertion only: the other options are
+   "not passed" there, pefim is False and there are no explicit certificates. *)
+Inductive argst := NotPassed | PassedNone | Passed (b : bool).
+Record optsrc := mkopt { o_arg : argst; o_cfg : option bool }.
+Record srcs := mksrcs { s_sr : optsrc; s_sa : optsrc; s_ea : optsrc; s_eadv : optsrc; s_sc : optsrc }.
+Record optdef := mkoptdef { sig_default : option bool; param_default : bool }.
+Record deftab := mkdeftab { t_sr : optdef; t_sa : optdef; t_ea : optdef; t_eadv : optdef; t_sc : optdef }.
+
+(* the defaults as they are in the code now (tied to the source text by Proofs.code_defaults_from_source) *)
+Definition code_defaults : deftab :=
+  mkdeftab (mkoptdef None false) (mkoptdef None false) (mkoptdef None false)
+           (mkoptdef (Some false) false) (mkoptdef (Some true) true).
+
+Definition kw_value (d : optdef) (a : argst) : option bool :=
+  match a with NotPassed => sig_default d | PassedNone => None | Passed b => Some b end.
+Definition pick (d : optdef) (o : optsrc) : bool :=
+  match kw_value d (o_arg o) with
+  | Some b => b
+  | None => match o_cfg o with Some b => b | None => param_default d end
+  end.
+
+Definition with_flags (x : input) (sr' sa' ea' eadv' sc' : bool) : input :=
+  mkinput (i_entry x) sr' sa' ea' eadv' sc' (pefim x) (md x) (cert_asrt x) (cert_adv x) (subj x) (attrs x) (leaves x).
+
+(* a call: the abstract input, and — for the Server entry — where each option comes from (None: every option is
+   passed as it stands in the input and the configuration is silent; the flag fields of the input are not looked at
+   when sources are given) *)
+Definition call := (input * option srcs)%type.
+
+Definition gather_with (d : deftab) (k : call) : input :=
+  match k with
+  | (x, None) => x
+  | (x, Some s) =>
+      match i_entry x with
+      | Entity => x          (* Entity._response takes its flags as they are: no configuration fallback *)
+      | Server => with_flags x (pick (t_sr d) (s_sr s)) (pick (t_sa d) (s_sa s)) (pick (t_ea d) (s_ea s))
+                               (pick (t_eadv d) (s_eadv s)) (pick (t_sc d) (s_sc s))
+      end
+  end.
+Definition gather : call -> input := gather_with code_defaults.
+Definition idp_call (k : call) : result := idp (gather k).
